@@ -40,9 +40,9 @@ func (x *g) iatBatchHeader(p plan, id string) *ach.IATBatchHeader {
 	bh.ID = id
 	bh.ServiceClassCode = p.scc
 	bh.ForeignExchangeIndicator = Pick(x.r, []string{"FV", "VF", "FF"})
-	if bh.ForeignExchangeIndicator == "FF" {
+	if bh.ForeignExchangeIndicator == "FF" && x.r.Bool() {
 		bh.ForeignExchangeReferenceIndicator = 3 // reference is space filled
-	} else {
+	} else { // fixed-to-fixed payments may carry a rate / reference number too: the validator does not couple the two fields
 		bh.ForeignExchangeReferenceIndicator = x.r.Range(1, 2)
 		bh.ForeignExchangeReference = x.text(15, latin)
 	}
